@@ -63,6 +63,10 @@ def run(F, rep, tier):
     import core
     import c14
     core.borrow(rep, c14.newline_flag, lambda o: o["rule"] == "NEWLINE-FLAG" and "parse_type" in o["key"], F)
+    # an annotation is also text: one that spans lines moves everything below it by its line count, and one on the line of a
+    # statement moves the columns to its right - nothing of a span may reach the emitted bytes (the line in the message of `<!>`
+    # does: the known finding it shares with C14)
+    core.borrow(rep, c14.no_layout_flow, lambda o: o["rule"] == "NO-LAYOUT-FLOW", F)
     erased_return_type(F, rep)
     checker_annotation_blind(F, rep)
     annotation_is_a_fresh_instance(F, rep)
@@ -351,6 +355,38 @@ def unknown_is_deferred(F, rep):
                                    "(field access, index, case, operators) is deferred.  `call :: fn p: A -> int do p.f(1) end` is "
                                    "accepted and becomes `Unknown types cannot be called` when the correct annotation `: A` is removed"
                                    % (last(fn["_path"], 2), tc.err_kind(a["body"])), line_of(a))
+    # .. also when it is the catch-all arm that answers it: a case split on the type of an *expression* (not of a declaration
+    # named in the source) whose `_` arm is an error and which has no arm for Unknown rejects what is not known yet
+    from hir import pat_is_catchall
+    from engines import strip_ty
+    from flow import Flow
+    for fn in F.fns_in("sylt_compiler::typechecker::"):
+        fl = None
+        k = 0
+        for m in nodes(fn_body(fn), "Match"):
+            if not strip_ty(m.get("scrut_ty") or "").endswith("ty::Type"):
+                continue
+            has_unknown, wild_err = False, None
+            for a in m["arms"]:
+                for alt in pat_alternatives(a["pat"]):
+                    if (pat_variant(alt) or "").endswith("Type::Unknown"):
+                        has_unknown = True
+                    if pat_is_catchall(alt) and tc.is_err_value(a["body"]):
+                        wild_err = a
+            if wild_err is None or has_unknown:
+                continue
+            fl = fl or Flow(fn, fn_body(fn))
+            sc = peel(m["scrut"])
+            arg = sc["args"][0] if sc.get("k") == "MethodCall" and sc.get("args") else sc
+            d = tc.describe(fl, arg)
+            n += 1
+            k += 1
+            declared = d.startswith("varty:") or "varty:" in d
+            rep.ob("INFERENCE", "%s|catch-all=>error#%d" % (last(fn["_path"], 2), k), declared,
+                   "the case split is on the type of a declaration the source names (%s)" % d if declared else
+                   "%s splits on the type of an expression (%s) and answers everything it does not list - a type that is still Unknown "
+                   "included - with the error `%s`: `bump :: fn c: Counter, by: int do c.n += by end` is accepted and is rejected once the "
+                   "correct annotation `: Counter` is removed" % (last(fn["_path"], 2), d, tc.err_kind(wild_err["body"])), line_of(wild_err))
     rep.ob("INFERENCE", "census", True, "%d arms of the checker handle Type::Unknown" % n, sites=n)
     rep.floor("INFERENCE", "arms on Type::Unknown", n, 15)
 
